@@ -19,7 +19,7 @@ def knownDelegations : List (String × String × List String) := [
   ("BlockInterleavedLinearOperator", "_solve", ["_solve:C"]),
   ("BlockInterleavedLinearOperator", "_cholesky_solve", ["_cholesky_solve:U"]),
   ("CatLinearOperator", "inv_quad_logdet", ["inv_quad_logdet:U"]),
-  ("CholLinearOperator", "solve", ["_cholesky_solve:U"]),
+  ("CholLinearOperator", "solve", ["_cholesky_solve:U", "_matmul_broadcast_shape:U"]),
   ("CholLinearOperator", "inv_quad", ["solve:C"]),
   ("CholLinearOperator", "inv_quad_logdet", ["inv_quad:C"]),
   ("CholLinearOperator", "_solve", ["_cholesky_solve:C", "_solve:C"]),
@@ -54,7 +54,7 @@ def knownDelegations : List (String × String × List String) := [
   ("LowRankRootAddedDiagLinearOperator", "_solve", ["cholesky_solve:U", "inverse:U", "matmul:U"]),
   ("SumKroneckerLinearOperator", "inv_quad_logdet", ["solve:C"]),
   ("SumKroneckerLinearOperator", "_solve", ["matmul:U", "solve:U"]),
-  ("TriangularLinearOperator", "solve", ["expand:C", "solve:C", "solve_triangular:C"]),
+  ("TriangularLinearOperator", "solve", ["_solve:C", "broadcast_shapes:C", "expand:C", "solve:C", "solve_triangular:C"]),
   ("TriangularLinearOperator", "inv_quad_logdet", ["solve:C"]),
   ("TriangularLinearOperator", "_solve", ["solve:U"]),
   ("TriangularLinearOperator", "_cholesky_solve", ["_cholesky_solve:C", "solve:C"]),
